@@ -502,6 +502,20 @@ class Case(object):
       tid, cid = "T", rng.choice(["A", "A", "B", "B", "A2"])
     allow_empty = (self.special == "emptykey") or cid in ("B", "FA", "FT") or tid != "T" and cid == "B"
     m, style = gen_renames(rng, allow_empty)
+    if tid == "T" and rng.random() < 0.15:
+      # rename exactly ONE label that occurs in a saved list filter of this column, preferring labels whose
+      # JSON text is not the label itself (quotes, backslashes, non-ASCII written as \uXXXX): whoever looks
+      # for the label in the filter's text instead of its parsed value misses those
+      colrefs = {c["colId"]: c["id"] for c in doc.meta("_grist_Tables_column") if c["parentId"] == 1}
+      labels = []
+      for r in doc.meta("_grist_Filters"):
+        if int(r["colRef"]) == colrefs.get(cid) and filter_class(r["filter"]) == "list":
+          for v in json.loads(r["filter"]).values():
+            labels += [x for x in v if isinstance(x, str) and (x != "" or allow_empty)]
+      odd = [x for x in labels if json.dumps(x)[1:-1] != x]
+      if labels:
+        k = rng.choice(odd if odd and rng.random() < 0.7 else labels)
+        m, style = {k: rng.choice(FRESH)}, "from-filter"
     if self.special == "emptykey" and cid in ("A", "A2") and rng.random() < 0.6:
       m[""] = rng.choice(FRESH + [""])
     return ["RenameChoices", tid, cid, m], style
